@@ -28,8 +28,13 @@ def _run(check, cfg, **kw):
 
 def rich_pick(out):
     """(kind, variant) of the non-default pick of a sweep behaviour, or None."""
+    open_labels = set()
     for r in out:
         k, v = r["k"], r["v"]
+        if k == "dol":
+            open_labels.add(r["l"])
+        if k == "s" and v != 1 and r["l"] and r["l"] in open_labels:
+            return ("s-terminating-a-do", v)          # the variant as do-term-action-stmt: a context of its own
         if k in ("s", "decl", "use", "format", "comp", "tbind", "enumr", "modproc") and v != 1:
             return (k, v)
         if (k in catalogue.OPEN or k in catalogue.MIDS or k in catalogue.UNIT) and v != 1:
